@@ -219,6 +219,8 @@ impl Ord for KV {
 fn show_f(x: f64) -> String {
     if x.is_nan() {
         "nan".into()
+    } else if x == 0.0 && x.is_sign_negative() {
+        "-0".into()
     } else if x.fract() == 0.0 && x.abs() < 9.0e18 {
         (x as i64).to_string()
     } else {
@@ -245,7 +247,7 @@ fn fold_once(f: &str, items: &str) -> Option<String> {
             let xs: Vec<f64> = if items == "-" {
                 vec![]
             } else {
-                items.split(',').map(|t| if t == "nan" { Some(f64::NAN) } else { t.parse::<i64>().ok().map(|v| v as f64) }).collect::<Option<_>>()?
+                items.split(',').map(|t| if t == "nan" { Some(f64::NAN) } else if t == "nz" { Some(-0.0) } else { t.parse::<i64>().ok().map(|v| v as f64) }).collect::<Option<_>>()?
             };
             let (c, s, mn, mx) = parallel_stats(xs.into_par_iter(), |x| *x);
             format!("{};{};{};{}", c, show_f(s), mn.map_or("N".into(), show_f), mx.map_or("N".into(), show_f))
@@ -527,8 +529,9 @@ fn gen_fold(r: &mut Rng, out: &mut Vec<String>, st: &mut std::collections::BTree
             if n == 0 {
                 "-".into()
             } else {
-                let nan = threads == "1" && r.chance(1, 2);
-                gen_ints(r, n, 9).iter().map(|v| if nan && r.chance(1, 4) { "nan".to_string() } else { v.to_string() }).collect::<Vec<_>>().join(",")
+                let nan = r.chance(1, 2);
+                let span = *r.pick(&[9i64, 1]);
+                gen_ints(r, n, span).iter().map(|v| if nan && r.chance(1, 4) { "nan".to_string() } else if *v == 0 && r.chance(1, 2) { "nz".to_string() } else { v.to_string() }).collect::<Vec<_>>().join(",")
             }
         }
         // overflowing sums / inexact float sums depend on the reduction shape: one-thread pools only
@@ -645,6 +648,13 @@ pub fn generate(seed: u64, cases: usize, out: &mut Vec<String>) {
         "par fold stats nan,1 1",
         "par fold stats 1,nan,2,3 1",
         "par fold stats - 1,8",
+        "par fold stats nan,nan,nan 1,2,3,8",
+        "par fold stats nan 1,2",
+        "par fold stats 0,nz 1,2,3,8",
+        "par fold stats nz,0 1,2,3,8",
+        "par fold stats 0,nz,0,nz,nz,0,0 1,2,3,8",
+        "par fold stats nz,nz 1,2",
+        "par fold stats 3,nan,nz,nan,0,-2 1,2,3,8",
         "par sched 2 d -",
         "par sched 2 d f",
         "par sched 2 d s0;s1;f;g0;g1;c0;c1",
